@@ -461,11 +461,37 @@ def dynamics_spec(rng, ctx, *, sl_bias=0.35, schedule=True, kind=None, same_solv
         newc = [c0[0] * rng.choice([0.5, 2, -1]) + rng.choice([0, 0.25]), c0[1], c0[2] * rng.choice([1, 0, 2]), c0[3], 0.0 if len(c0) < 5 else c0[4]]
         at = len(ops) - 1
         ops.insert(at, {'op': 'load', 'coef': newc})
+    if rng.random() < 0.15:
+        inject_reunit(rng, spec, ops)
     if redeclare is None:
         redeclare = rng.random() < 0.15
     if redeclare:
         inject_redeclare(rng, spec, ops)
     return spec
+
+
+REUNIT = {'motor': [('inertia_moment', 'InertiaMoment'), ('no_load_speed', 'AngularSpeed'), ('maximum_torque', 'Torque'),
+                    ('no_load_electric_current', 'Current'), ('maximum_electric_current', 'Current')],
+          'fly': [('inertia_moment', 'InertiaMoment')],
+          'spur': [('inertia_moment', 'InertiaMoment'), ('module', 'Length'), ('face_width', 'Length'), ('elastic_modulus', 'Stress')],
+          'helical': [('inertia_moment', 'InertiaMoment'), ('module', 'Length'), ('face_width', 'Length'), ('elastic_modulus', 'Stress'),
+                      ('helix_angle', 'Angle')],
+          'wormgear': [('inertia_moment', 'InertiaMoment'), ('reference_diameter', 'Length'), ('helix_angle', 'Angle')],
+          'wormwheel': [('inertia_moment', 'InertiaMoment'), ('module', 'Length'), ('face_width', 'Length'), ('helix_angle', 'Angle')]}
+
+
+def inject_reunit(rng, spec, ops, k=None):
+    """1-3 parameter objects of live components are converted in place to another unit, before a run of the
+    schedule (after the Powertrain and the Solver exist): nothing physical changes"""
+    runs = [i for i, op in enumerate(ops) if op['op'] == 'run']
+    if not runs:
+        return
+    at = rng.choice(runs)
+    for _ in range(k or rng.randint(1, 3)):
+        oi = rng.randrange(len(spec['elems']) + 1)
+        ty = 'motor' if oi == 0 else spec['elems'][oi - 1]['type']
+        attr, kind = rng.choice(REUNIT[ty])
+        ops.insert(at, {'op': 'reunit', 'obj': oi, 'attr': attr, 'unit': rng.choice(list(SI[kind].keys()))})
 
 
 def inject_redeclare(rng, spec, ops):
